@@ -13,13 +13,29 @@ def main(tier):
         run.add(EncoderTask(fmt))
     for fmt in ('tcp', 'usb', 'yd', 'actisense'):
         run.add(DecoderTask(fmt))
+    # "a concatenation of packets is split back into the same packets by the matching receive path": one receive step
+    # of each client from an arbitrary pending buffer (the framing step; the same contract C12/C20 use)
+    from contracts import ioclient_c as I
+    for cls in ('EByteNmea2000Gateway', 'ActisenseNmea2000Gateway', 'YachtDevicesNmea2000Gateway', 'WaveShareNmea2000Gateway'):
+        run.add(I.ReceiveImplTask('C06', cls))
+    # messages longer than one frame: the packets carry the frames _encode_fast_message cuts (its segmentation contract,
+    # also part of C03) and the identifier built / parsed by the header pair (also part of C05)
+    from props.C03 import EncodeFastTask
+    from props.C01 import chunks
+    for ch in chunks(list(range(0, 224)), 32):
+        run.add(EncodeFastTask(ch, prop='C06'))
+    from contracts.headers import ExtractHeader, BuildHeader
+    from pyvc.tasks import with_prop
+    run.add(SpecTask(with_prop(ExtractHeader(), 'C06')), SpecTask(with_prop(BuildHeader(), 'C06')))
     from props import C06_extra
     C06_extra.add(run, tier)
     run.extra_cov['exhaustive'] = True
     run.extra_cov['exhaustive_note'] = 'frame data lengths 0..8 enumerated for every format; identifier, header fields and data bytes symbolic'
     run.trust('token axioms for text formats: (A1) a formatted integer contains only hex digits, (A2) int(format(v, "0NX"), 16) == v in either letter case, (A3) split() of space/comma separated non-empty tokens gives the tokens back',
               'pyvc bytes / list / f-string model', 'z3 5.1')
-    run.assume('timestamps: datetime.now/strptime/timedelta are total on well-formed tokens and do not influence the decoded frame',
+    run.assume('receive path: StreamReader.readexactly(13) / readline() / read(n) deliver the stream in order whatever the segmentation (dependency contract, assumed); splitting a whole '
+               'concatenation follows from the proved single step by induction on the number of packets (not mechanised)',
+               'timestamps: datetime.now/strptime/timedelta are total on well-formed tokens and do not influence the decoded frame',
                '_encode and _decode are used through their contracts here (frames of at most 8 bytes; C02/C03/C09 and C10/C11)',
                'header field ranges: 0<=priority<=7, 0<=source,destination<=255, 0<=PGN<2^18')
     return run.execute()
